@@ -17,9 +17,15 @@ import (
 //   fan <entry> <rf> <rep> <placement> <scripts>
 //       entry      h = HTTP POST /api/v1/receive through the handler's router (answer: status code)
 //                  g = gRPC Handler.RemoteWrite (answer: ok | exists | unavail | invalid | internal)
+//                  c = as h, but every peer is reached by the real Cap'n Proto client / server / writer
+//                      over an in-memory connection and the outcome is produced by a scripted tenant
+//                      storage on the peer (outcomes k o N x X only): the error mapping of
+//                      CapNProtoHandler and of writecapnp.RemoteWriteClient is part of the run
 //       rf         replication factor
 //       rep        0 = not yet replicated; k>0 = request already replicated as replica k
-//       placement  per series (`,`) the endpoint index of replica 0,1,… (`.`)  — the scripted hashring
+//       placement  per series (`,`) `[T@]e.e.e`: the endpoint index of replica 0,1,… — the scripted
+//                  hashring — optionally prefixed by a tenant index T (non-decreasing): h/c: a series
+//                  of tenant T>0 carries the split-tenant label, g: one TimeseriesTenantData tuple per tenant
 //       scripts    arrival orders separated by `/`; an order = `e:r:o` entries (`,`): the write to
 //                  endpoint e as replica r answers with outcome o, in this order; every order must
 //                  name every write exactly once
@@ -88,14 +94,23 @@ func tally(rf, rep int, pl [][]int, script []scriptEntry) []seriesTally {
 }
 
 func execFan(c *hlib.Ctx, tok []string, prop string) string {
-	if len(tok) != 6 || tok[0] != "fan" || (tok[1] != "h" && tok[1] != "g") {
+	if len(tok) != 6 || tok[0] != "fan" || (tok[1] != "h" && tok[1] != "g" && tok[1] != "c") {
 		return "bad-op"
 	}
-	httpEntry := tok[1] == "h"
+	httpEntry := tok[1] != "g"
 	rf, err1 := strconv.Atoi(tok[2])
 	rep, err2 := strconv.Atoi(tok[3])
-	pl, ok1 := parsePlacement(tok[4])
+	pl, tenants, ok1 := parsePlacement(tok[4])
 	scripts, ok2 := parseScripts(tok[5])
+	if ok2 && tok[1] == "c" {
+		for _, sc := range scripts {
+			for _, e := range sc {
+				if !strings.ContainsRune("koNxX", rune(e.o)) {
+					return "bad-op"
+				}
+			}
+		}
+	}
 	if err1 != nil || err2 != nil || !ok1 || !ok2 || rf < 1 || rf > numEndpoints || rep < 0 {
 		return "bad-op"
 	}
@@ -128,13 +143,16 @@ func execFan(c *hlib.Ctx, tok []string, prop string) string {
 		}
 	}
 	env := theFanEnv()
+	if tok[1] == "c" {
+		env = theCapnpFanEnv()
+	}
 	var sts []string
 	recv := ""
 	for i, sc := range scripts {
 		if preFail {
 			sc = nil
 		}
-		r := env.runFan(httpEntry, rf, rep, pl, sc)
+		r := env.runFan(httpEntry, rf, rep, pl, tenants, sc)
 		sts = append(sts, r.status)
 		c.Count("status:" + r.status)
 		rv := showRecv(r.recv, r.unknown)
@@ -148,6 +166,23 @@ func execFan(c *hlib.Ctx, tok []string, prop string) string {
 		}
 		if !preFail {
 			judgeFan(c, prop, httpEntry, rf, rep, pl, sc, r, i)
+			// capnp transport: what the client made of the peer's answer (a cancelled write is not judged)
+			for k, lc := range r.codes {
+				want := map[byte]string{'k': "OK", 'o': "AlreadyExists", 'N': "Unavailable", 'x': "Unavailable", 'X': "Unavailable"}[lc[0]]
+				c.Count("capnp-code:" + lc)
+				if got := lc[2:]; got != want && got != "Canceled" {
+					c.Violation("capnp-code-unexpected", fmt.Sprintf("write %d:%d with peer outcome %c reached the handler as gRPC code %s, expected %s", k.e, k.r, lc[0], got, want))
+				}
+			}
+			for name, got := range r.tenants {
+				id, err := strconv.Atoi(strings.TrimPrefix(name, "s"))
+				if err != nil {
+					continue
+				}
+				if want := expectedTenant(httpEntry, tenants, id); got != want {
+					c.Violation("tenant-mixup", fmt.Sprintf("series %s reached the peers under tenant %q, the request puts it under %q", name, got, want))
+				}
+			}
 		}
 	}
 	if !preFail && len(sts) > 1 {
@@ -272,7 +307,10 @@ func showScript(sc []scriptEntry) string {
 	return hlib.Join(p, ",")
 }
 
-func showPlacement(pl [][]int) string {
+func showPlacement(pl [][]int) string { return showPlacementT(pl, nil) }
+
+// showPlacementT prints the placement with the tenant index of every series (nil = all tenant 0).
+func showPlacementT(pl [][]int, tenants []int) string {
 	rows := make([]string, len(pl))
 	for i, row := range pl {
 		xs := make([]string, len(row))
@@ -280,6 +318,9 @@ func showPlacement(pl [][]int) string {
 			xs[j] = strconv.Itoa(v)
 		}
 		rows[i] = hlib.Join(xs, ".")
+		if tenants != nil && tenants[i] > 0 {
+			rows[i] = fmt.Sprintf("%d@%s", tenants[i], rows[i])
+		}
 	}
 	return strings.Join(rows, ",")
 }
@@ -349,7 +390,11 @@ func genSingleSeries(c *hlib.Ctx, entry string, alphabet string, maxRF int, maxO
 }
 
 // genMulti: several series spread over the endpoints, random outcomes per write, a few orders.
-func genMulti(c *hlib.Ctx, alphabet string, rounds int) {
+func genMulti(c *hlib.Ctx, alphabet string, rounds int) { genMultiT(c, alphabet, rounds, "") }
+
+// genMultiT: entry "" = h or g at random, otherwise the given entry; a third of the requests
+// spreads its series over 2-3 tenants.
+func genMultiT(c *hlib.Ctx, alphabet string, rounds int, fixedEntry string) {
 	r := c.R
 	for it := 0; it < rounds; it++ {
 		rf := r.Range(1, 6)
@@ -394,13 +439,29 @@ func genMulti(c *hlib.Ctx, alphabet string, rounds int) {
 		if r.Chance(1, 4) {
 			entry = "g"
 		}
+		if fixedEntry != "" {
+			entry = fixedEntry
+		}
+		var tenants []int
+		if r.Chance(1, 3) {
+			tenants = make([]int, n)
+			t := 0
+			for i := range tenants {
+				if i > 0 && r.Chance(1, 2) && t < 3 {
+					t++
+				}
+				tenants[i] = t
+			}
+			c.Count(fmt.Sprintf("multi:tenants%d", tenants[n-1]+1))
+		}
+		c.Count("multi:entry-" + entry)
 		c.Count(fmt.Sprintf("multi:rf%d", rf))
 		c.Count(fmt.Sprintf("multi:series%d", n))
 		c.Count(fmt.Sprintf("multi:writes%d", len(keys)))
 		if rep != 0 {
 			c.Count("multi:replicated")
 		}
-		c.Do(fmt.Sprintf("fan %s %d %d %s %s", entry, rf, rep, showPlacement(pl), strings.Join(ss, "/")), true)
+		c.Do(fmt.Sprintf("fan %s %d %d %s %s", entry, rf, rep, showPlacementT(pl, tenants), strings.Join(ss, "/")), true)
 	}
 }
 
@@ -411,5 +472,9 @@ func genC23(c *hlib.Ctx) {
 	genSingleSeries(c, "h", "kCU", 6, c.N(6, 0))
 	genSingleSeries(c, "h", "konN", 5, c.N(4, 30))
 	genSingleSeries(c, "g", "kcu", 6, c.N(6, 0))
-	genMulti(c, "cCouUnN", c.N(3000, 60000))
+	// the peers reached over Cap'n Proto: conflict (o), not ready (N) — and internal errors, which
+	// that transport reports as unavailable (x, X; outside C23's outcome domain, judged by C22 only)
+	genSingleSeries(c, "c", "koN", 5, c.N(3, 12))
+	genMulti(c, "cCouUnN", c.N(3000, 45000))
+	genMultiT(c, "oN", c.N(300, 5000), "c")
 }
